@@ -41,13 +41,13 @@ PROPS["C05"] = dict(
 )
 for arch, vdef in (("avx2", "VEC_LEN=32"), ("sse", "VEC_LEN=16")):
     sbu = ["%s.%s" % (arch, f) for f in ("TrailingZeroes", "LeadingZeroes", "CountOnes", "PrefixXor")] + UNI + \
-          ["%s.StringBlock.%s" % (arch, m) for m in ("fields", "HasQuoteFirst", "HasBackslash", "HasUnescaped", "QuoteIndex", "BsIndex", "UnescapedIndex", "Find")] + ["parseStringInplace"]
+          ["%s.StringBlock.%s" % (arch, m) for m in ("fields", "HasQuoteFirst", "HasBackslash", "HasUnescaped", "QuoteIndex", "BsIndex", "UnescapedIndex", "Find")] + ["parseStringInplace", "parseStringInplace.classify"]
     PROPS["C05"]["jobs"].append(dict(
         id="C05.StringBlock@" + arch, src="c05_string.c", harness="h_StringBlock", units=sbu, defs=[vdef], arch=arch, route="L", function="StringBlock::Find + predicates",
         unwind=34, replay="stringblock", timeout=900,
         claims="all VEC_LEN-byte blocks: the three masks equal the per-byte predicates (backslash, quote, < 0x20); HasQuoteFirst/HasBackslash/HasUnescaped/QuoteIndex/BsIndex describe the first special byte; reads exactly VEC_LEN bytes"))
     PROPS["C05"]["jobs"].append(dict(
-        id="C05.parseStringInplace.classify@" + arch, src="c05_string.c", harness="h_classify", units=sbu + ["parseStringInplace.classify"], defs=[vdef], arch=arch, route="L",
+        id="C05.parseStringInplace.classify@" + arch, src="c05_string.c", harness="h_classify", units=sbu, defs=[vdef], arch=arch, route="L",
         function="parseStringInplace: second-phase block classification (verbatim fragment)", unwind=34, replay="stringblock", timeout=600,
         claims="all VEC_LEN-byte blocks: the three masks built inline under find_and_move equal the per-byte predicates for every lane (the loop around it is undecided)"))
     # parseStringInplace (h_parseStringInplace in specs/c05_string.c): bounded jobs at raw length 8, VEC_LEN+4 and VEC_LEN+8 did not
@@ -323,7 +323,7 @@ PROPS["C04"] = dict(level="other", jobs=C04_JOBS, trusted_base=COMMON_TRUST, ass
 import copy
 C15_JOBS = []
 for src_prop, pick in (("C11", ("GetNonSpaceBits@", "GetNextToken_3@", "GetNextToken_4@", "SkipString@", "GetStringBits@", "GetEscaped_")),
-                       ("C05", ("StringBlock@",)), ("C09", ("CopyAndGetEscapMask@",))):
+                       ("C05", ("StringBlock@", "parseStringInplace.classify@")), ("C09", ("CopyAndGetEscapMask@",))):
     for j in PROPS[src_prop]["jobs"]:
         if any(("." + p) in j["id"] for p in pick):
             k = copy.deepcopy(j); k["id"] = "C15." + j["id"]; k.pop("replay", None)
